@@ -80,10 +80,19 @@ fn number() -> impl Strategy<Value = f64> {
     ]
 }
 
+/// inline text of LABEL / STRING records: the character count is a 16-bit field (lengths around
+/// 255/256 and well beyond), one record holds up to 8224 bytes
+fn inline_text() -> impl Strategy<Value = String> {
+    prop_oneof![
+        12 => "[a-zA-Zé ]{1,12}",
+        1 => (proptest::sample::select(vec![255usize, 256, 257, 300, 1000, 4000]), "[a-zé]").prop_map(|(n, c)| c.repeat(n)),
+    ]
+}
+
 fn lcell(n_strings: u32) -> impl Strategy<Value = LCell> {
     let fval = prop_oneof![
         3 => number().prop_filter("not a marker", |f| (f.to_bits() >> 48) != 0xFFFF).prop_map(FVal::Num),
-        2 => ("[a-zA-Zé ]{1,12}", any::<bool>()).prop_map(|(s, w)| FVal::Str(s, w)),
+        2 => (inline_text(), any::<bool>()).prop_map(|(s, w)| FVal::Str(s, w)),
         1 => any::<bool>().prop_map(FVal::Bool),
         1 => (0usize..8).prop_map(|k| FVal::Err(BERR[k].0)),
         1 => Just(FVal::EmptyStr),
@@ -92,7 +101,7 @@ fn lcell(n_strings: u32) -> impl Strategy<Value = LCell> {
     prop_oneof![
         8 => (number(), any::<u8>()).prop_map(|(v, e)| LCell::Num(v, e)),
         3 => sst,
-        1 => ("[a-zA-Zé]{1,10}", any::<bool>()).prop_map(|(s, w)| LCell::Label(s, w)),
+        1 => (inline_text(), any::<bool>()).prop_map(|(s, w)| LCell::Label(s, w)),
         1 => any::<bool>().prop_map(LCell::Bool),
         1 => (0u8..8).prop_map(LCell::Err),
         2 => fval.prop_map(LCell::Formula),
@@ -203,7 +212,20 @@ pub fn build(case: &Case, rot: u8) -> XlsDoc {
     }
     XlsDoc {
         sheets,
-        sst: case.strings.iter().map(|s| SstString { wide: rot % 2 == 1, ..SstString::plain(s) }).collect(),
+        // the second reading also cuts every other string in two CONTINUE segments of different packing
+        sst: case
+            .strings
+            .iter()
+            .enumerate()
+            .map(|(i, s)| {
+                let mut x = SstString { wide: rot % 2 == 1, ..SstString::plain(s) };
+                let n = x.units.len();
+                if rot != 0 && i % 2 == 1 && n >= 2 && !x.units.iter().any(|u| (0xD800..0xE000).contains(u)) {
+                    x.segments = vec![((n / 2) as u16, i % 4 == 1), ((n - n / 2) as u16, i % 4 != 1)];
+                }
+                x
+            })
+            .collect(),
         xfs: case.xfs.clone(),
         junk: case.junk,
         codepage: case.codepage.then_some(1200),
@@ -366,6 +388,9 @@ fn rk_sweep(ctx: &mut Ctx, step: u64) {
 fn run(ctx: &mut Ctx) {
     let n = ctx.n(2500, 40_000);
     ctx.run("workbook", n, case_strategy, oracle);
+    // shared-string indices beyond 16 bits: LABELSST carries a 32-bit index
+    let n = ctx.n(1, 20);
+    ctx.run("bigtable", n, || crate::props::c19::big_table().prop_map(|mut b| { b.fmt = 2; b }), crate::props::c19::oracle_big);
     // quick: every 1021st word (4.2 M words, all flag combinations); thorough: all 2^32
     rk_sweep(ctx, if ctx.quick() { 1021 } else { 1 });
     ctx.assumptions.push("cell records are written in row order (BIFF requirement); formula strings fit one STRING record; doubles whose top 16 bits are 0xFFFF (NaN payloads that collide with the FORMULA value markers) are not generated".into());
@@ -374,6 +399,7 @@ fn run(ctx: &mut Ctx) {
 fn replay(sub: &str, case: &serde_json::Value) -> Option<Report> {
     match sub {
         "workbook" => replay_as::<Case>(case, oracle),
+        "bigtable" => replay_as::<crate::props::c19::BigTable>(case, crate::props::c19::oracle_big),
         "rk" => replay_as::<RkWord>(case, oracle_rk),
         _ => None,
     }
